@@ -308,6 +308,11 @@ impl Ex<'_> {
             );
             return None;
         }
+        // the other position accessors must describe the same remainder
+        if p.len() != rem.len() || p.is_empty() != rem.is_empty() {
+            self.viol("C13", trace, "len()/is_empty() disagree with the remainder", format!("len {} is_empty {}", rem.len(), rem.is_empty()), format!("len {} is_empty {}", p.len(), p.is_empty()));
+            return None;
+        }
         if let Err(e) = substr_oracle(self.input, rem, self.rep) {
             self.viol("C13", trace, "remainder fails the sub-string oracle", "sub-string of the original".into(), e);
             return None;
